@@ -93,9 +93,16 @@ class ifthenelse(Command):
         for tok in test_iter:
             # Handle literal integers with tex.readNumber
             number_tokens: List[Token] = []
-            while tok.catcode == Token.CC_OTHER and (tok not in ['<', '>', '=']):
-                number_tokens.append(tok)
-                tok = next(test_iter, Space())
+            while (tok.catcode == Token.CC_OTHER and (tok not in ['<', '>', '='])) or \
+                  (tok.catcode == Token.CC_SPACE and number_tokens and
+                   all(t in ['+', '-'] for t in number_tokens)):
+                # Blanks are allowed between the signs and the digits of a number
+                if tok.catcode == Token.CC_OTHER:
+                    number_tokens.append(tok)
+                tok = next(test_iter, None)
+                if tok is None:
+                    tok = Space()
+                    break
             if number_tokens:
                 value: int = tex.readInternalType(number_tokens, tex.readNumber)
                 postfix.append(number(value))
